@@ -1,4 +1,139 @@
-import TD.C06.Model
+import TD.C06.Lemmas
+
+/-!
+# C06 — LIS log pass frame sets are exact; any sub-selection is a sub-matrix
+
+Property theorems only.  The model (`TD.C06.Model`) transcribes Type01Plan / Rle / LogPass / FrameSet / FileIndexer of
+TotalDepth; it is tied to the Python source by the correspondence run of `./check C06`.
+-/
 namespace TD.C06
-theorem stub : True := trivial
+
+/-! ## File index -/
+
+/-- **Index lists all**: when indexing succeeds, the index holds — in file order — exactly one entry for every logical
+record whose type the dispatch table knows (every header, trailer, table, DFSR and marker record), at the record's
+position, with its type, its kind and, for tables, the value of the first component block as name.  Type 0/1 records
+never produce an entry.  (`specEntries` looks at each record on its own: no state.) -/
+theorem index_lists_all (recs : List (Nat × List Nat)) (es : List Entry) (h : fileIndex recs = .ok es) :
+    es.map Entry.proj = specEntries recs := by
+  unfold fileIndex at h
+  split at h
+  · cases h
+  · rename_i s hs
+    cases h
+    simpa using indexFile_proj recs ⟨[], none, none⟩ s hs
+
+example : (fileIndex [(0, [128, 0] ++ List.replicate 56 65),
+      (62, [34, 0, 73, 65, 4, 0, 84, 89, 80, 69, 32, 32, 32, 32, 67, 79, 78, 83]), (80, [0, 0, 1, 2]), (90, [200, 0])]).toOption.map
+        (·.map Entry.proj) = some [(0, 128, .fileHead, none), (62, 34, .table, some (.bytes [67, 79, 78, 83]))] := by
+  decide +kernel
+
+/-- **Index, data record**: a type 0/1 record accepted for a log pass has a length of the indirect word plus a whole
+number `n` of frames, and is appended as `(position, n)` to the record list that the run-length table stands for. -/
+theorem index_data_record (lp lp' : LogPass) (tell t : Nat) (payload : List Nat)
+    (h : indexAddData lp tell t payload = .ok lp') :
+    ∃ n, payload.length = lp.plan.indr + n * lp.plan.frameSize ∧ 0 < lp.plan.frameSize ∧
+      expand lp'.rle = expand lp.rle ++ [((tell : Int), n)] ∧
+      rle01Total lp'.rle = rle01Total lp.rle + n := by
+  obtain ⟨x, hx⟩ := indexAddData_ok lp lp' tell t payload h
+  obtain ⟨n, hn, hr⟩ := addType01Data_ok lp lp' tell t payload.length x hx
+  obtain ⟨hlen, hfs⟩ := numFrames_ok lp.plan payload.length n hn
+  exact ⟨n, hlen, hfs, by simp [hr, rle01Add_expand], by simp [hr, expand_total, rle01Add_expand]⟩
+
+/-- **RLE lookup** (restated from `Lemmas`): for a table whose records all hold at least one frame,
+`RLEType01.tellLrForFrame(f)` returns the position of the record holding frame `f` and the frame's offset in it —
+`locate` on the plain record list — and raises `IndexError` exactly when `f` is beyond the last frame. -/
+theorem rle_lookup (l : List Item01) (hpos : ∀ it ∈ l, 0 < it.numFrames) (f : Nat) :
+    rle01Tell l f = (match locate (expand l) f with | some r => .ok r | none => .error .indexError) :=
+  rle01Tell_locate l hpos f
+
+example : rle01Tell (rle01Add (rle01Add (rle01Add [] 100 5 0) 200 5 0) 300 3 0) 11 = .ok (300, 1) := by decide
+
+/-- A record with zero frames breaks the lookup of every later frame (`ZeroDivisionError`, finding F22). -/
+theorem rle_lookup_zero_frames_fails :
+    rle01Tell (rle01Add (rle01Add (rle01Add [] 100 5 0) 200 0 0) 300 5 0) 5 = .error .zeroDiv := by decide
+
+/-! ## Loads do not depend on earlier loads -/
+
+/-- **History independence**: the outcome of `setFrameSet` (file operations or exception) and the frame set it leaves
+do not depend on the frame set left by earlier loads — only on the DFSR, the record table and on whether an earlier
+load died inside the `FrameSet` constructor (`fsDeleted`, finding F20). -/
+theorem setFrameSet_history_independent (lp lp' : LogPass) (st : Store) (sl : Option Sl) (ch : Option (List Nat))
+    (h1 : lp.dfsr = lp'.dfsr) (h2 : lp.plan = lp'.plan) (h3 : lp.xAxisIndex = lp'.xAxisIndex) (h4 : lp.rle = lp'.rle)
+    (h5 : lp.fsDeleted = lp'.fsDeleted) :
+    (setFrameSet lp st sl ch).2 = (setFrameSet lp' st sl ch).2 ∧
+    (∀ ops, (setFrameSet lp st sl ch).2 = .ok ops → (setFrameSet lp st sl ch).1.frameSet = (setFrameSet lp' st sl ch).1.frameSet) := by
+  obtain ⟨d, p, x, r, f, dl⟩ := lp
+  obtain ⟨d', p', x', r', f', dl'⟩ := lp'
+  simp only at h1 h2 h3 h4 h5
+  subst h1 h2 h3 h4 h5
+  unfold setFrameSet genFrameSetEvents retFrameSetMap
+  simp only
+  split
+  · exact ⟨rfl, fun _ h => by cases h⟩
+  · split
+    · exact ⟨rfl, fun _ h => by cases h⟩
+    · split
+      · exact ⟨rfl, fun _ _ => rfl⟩
+      · split
+        · exact ⟨rfl, fun _ _ => rfl⟩
+        · split
+          · exact ⟨rfl, fun _ _ => rfl⟩
+          · split <;> exact ⟨rfl, fun _ _ => rfl⟩
+
+/-- The one way history matters (finding F20): once `FrameSet(...)` has raised after `del self._frameSet`, every later
+load raises `AttributeError`. -/
+theorem setFrameSet_after_failed_ctor (lp : LogPass) (st st' : Store) (sl sl' : Option Sl) (ch ch' : Option (List Nat))
+    (e : Err) (hT : rle01Total lp.rle ≠ 0) (hD : lp.fsDeleted = false)
+    (hF : FrameSet.new lp.dfsr (slOrAll sl (rle01Total lp.rle)) ch lp.xAxisIndex = .error e) :
+    (setFrameSet (setFrameSet lp st sl ch).1 st' sl' ch').2 = .error .attributeError := by
+  have h1 : (setFrameSet lp st sl ch).1 = { lp with frameSet := none, fsDeleted := true } := by
+    unfold setFrameSet
+    simp only [hT, if_false, hD, Bool.false_eq_true]
+    rw [hF]
+  rw [h1]
+  unfold setFrameSet
+  simp [hT]
+
+/-! ## Implied X axis -/
+
+/-- the implied X value of frame `f`: `x0 + f·spacing` -/
+def xSpec (x0 sp : Int) (frames : List Nat) : List (Option Int) := frames.map (fun (f : Nat) => some (x0 + (f : Int) * sp))
+
+/-- the F7 witness: indirect X (rep code 73), up log (spacing −60), one 1-byte channel, 3 records × 5 frames -/
+def dfsrW : Dfsr := ⟨0, 1, 73, 1, some 60, some [46, 49, 73, 78], some [46, 49, 73, 78], [⟨1, 1, 66⟩]⟩
+
+def recW (x v : Nat) : List Nat :=
+  [0, 0] ++ [x / 16777216 % 256, x / 65536 % 256, x / 256 % 256, x % 256] ++ [v, v + 1, v + 2, v + 3, v + 4]
+
+def storeW : Store := [(100, recW 120000 0), (200, recW 119700 5), (300, recW 119400 10)]
+
+def lpW : LogPass :=
+  match LogPass.new dfsrW 0 with
+  | .ok lp =>
+    (match lp.addType01Data 100 0 9 120000 with
+     | .ok a => (match a.addType01Data 200 0 9 119700 with
+       | .ok b => (match b.addType01Data 300 0 9 119400 with | .ok c => c | .error _ => b)
+       | .error _ => a)
+     | .error _ => lp)
+  | .error _ => ⟨dfsrW, ⟨0, []⟩, 0, [], none, false⟩
+
+/-- On the witness the full load is right: every implied X is `x0 + f·spacing`, and the matrix holds the recorded bytes. -/
+theorem implied_x_witness_step1 :
+    (setFrameSet lpW storeW none none).1.frameSet.map (·.xvec) = some (xSpec 120000 (-60) (rangeList 0 15 1)) ∧
+    (setFrameSet lpW storeW none none).1.frameSet.map (·.frames) = some ((List.range 15).map (fun v => [some v])) := by
+  constructor <;> decide +kernel
+
+/-- **F7 (known finding)**: the statement "the implied X of every loaded frame is `x0 + f·spacing`" is *false* on the
+current code: `slice(0,16,2)` over 3 records × 5 frames gives 119700, 119580 for frames 6 and 8 (true 119640, 119520),
+while the matrix itself is right. -/
+theorem implied_x_f7_witness :
+    (setFrameSet lpW storeW (some ⟨0, 16, 2⟩) none).1.frameSet.map (·.xvec)
+      = some [some 120000, some 119880, some 119760, some 119700, some 119580, some 119400, some 119280, some 119160] ∧
+    (setFrameSet lpW storeW (some ⟨0, 16, 2⟩) none).1.frameSet.map (·.xvec)
+      ≠ some (xSpec 120000 (-60) (rangeList 0 16 2)) ∧
+    (setFrameSet lpW storeW (some ⟨0, 16, 2⟩) none).1.frameSet.map (·.frames)
+      = some ((rangeList 0 16 2).map (fun v => [some v])) := by
+  refine ⟨by decide +kernel, by decide +kernel, by decide +kernel⟩
+
 end TD.C06
